@@ -24,6 +24,10 @@ def run(run, model):
     run.do(common.truth_rule, model, "C01.truth")
     run.do(common.kind_uniform, model, "C01.kind-uniform")
     run.do(common.append_rules, model, "C01.append", which=("pre",))
+    from . import c18, marker, meta
+    run.do(c18.find_rule, model, "C01.single-checker")
+    run.do(marker.body_rules, model, "C01.body-unheld", None)
+    run.do(meta.provenance_rule, model, "C01.inherited-groups", "__preconditions__", "precondition groups")
     run.minimum("C01.gate", 2, "sync and async checker wrapper")
     run.minimum("C01.iter-all", 2)
     run.minimum("C01.verdict", 2)
